@@ -158,6 +158,16 @@ def has_sse(tree):
     return "inner" in tree and has_sse(tree["inner"])
 
 
+class _Sink:
+    """views.append(...) of the dump view goes to the list of the request being served"""
+
+    def __init__(self, holder):
+        self.holder = holder
+
+    def append(self, v):
+        self.holder["views"].append(v)
+
+
 class C04(Prop):
     id = "C04"
     level = "exploration"
@@ -170,7 +180,7 @@ class C04(Prop):
                    "header names in the abstract request are unique and contain no underscore (WSGI cannot represent the difference)")
     components = {"real": ["baize.wsgi.* and baize.asgi.* (requests, responses, routing, staticfiles, shortcut, middleware)", "baize.requests/datastructures/routing/staticfiles"],
                   "stub": ["WSGI server peer (environ, short reads)", "ASGI server peer (scope, chunked messages, latencies)", "event loop clock/selector, executor", "SimThreads for WSGI SSE", "virtual wall clock", "SimFS tree"]}
-    hard_probes = ("dump_view", "router", "subpaths", "hosts", "files", "pages", "middleware", "form_multipart", "http_exception_outcome", "status_304", "executor_latency")
+    hard_probes = ("dump_view", "router", "subpaths", "hosts", "files", "pages", "middleware", "form_multipart", "http_exception_outcome", "status_304", "executor_latency", "two_request_history")
     quick_runs = 150000
     thorough_runs = 2000000
     batch = 500
@@ -183,7 +193,15 @@ class C04(Prop):
             self.fs.write(rel, data, mtime=SITE_MTIME + i, ctime=SITE_MTIME + i + (0 if i % 3 == 0 else 90))
 
     def gen_plan(self, t):
-        return {"req": gen_request(t), "app": gen_app(t), "lat": t.choice(["fast", "mixed"]), "short": t.draw(2) == 0}
+        plan = {"req": gen_request(t), "app": gen_app(t), "lat": t.choice(["fast", "mixed"]), "short": t.draw(2) == 0, "req2": None}
+        if t.draw(3) == 0:
+            # a history: a second request served by the SAME application objects (often to the same path, with other
+            # conditional / Range headers) - whatever the first request left behind in them must not show
+            r2 = gen_request(t)
+            if t.draw(2):
+                r2["path"], r2["root_path"] = plan["req"]["path"], plan["req"]["root_path"]
+            plan["req2"] = r2
+        return plan
 
     def describe(self, plan, variant=None):
         return jsonable(plan)
@@ -285,8 +303,7 @@ class C04(Prop):
             body = body.replace(b": ping\n\n", b"")
         return ("response", status, sorted(headers), body)
 
-    def _wsgi(self, plan, ctx, boom):
-        rq = plan["req"]
+    def _wsgi(self, plan, ctx, boom, rq, cache):
         views = []
         peer = WsgiPeer(ctx, ctx.sched, self._abstract(rq), short_reads=plan["short"], surface="wsgi")
         random.seed(4242)
@@ -295,18 +312,26 @@ class C04(Prop):
             ctx.notes["qrepr"] = lambda x: type(x).__name__
             with T.simulation(ctx.sched, ctx, trace_files=(), preempt=(0, 1)) as s:
                 import time as _t
-                app = self._interpret(plan["app"], "wsgi", views, boom, _t.sleep)
+                app = self._app(plan, "wsgi", views, boom, cache, _t.sleep)
                 s.spawn(lambda: peer.run(app), "consumer")
                 res = s.run()
             if res != "ok":
                 return ("hang", res), views
         else:
-            app = self._interpret(plan["app"], "wsgi", views, boom)
+            import time as _t
+            app = self._app(plan, "wsgi", views, boom, cache, _t.sleep)
             peer.run(app)
         return self._outcome(peer.status, peer.header_list(), peer.body, peer.exc or peer.close_exc, has_sse(plan["app"])), views
 
-    def _asgi(self, plan, ctx, boom):
-        rq = plan["req"]
+    def _app(self, plan, iface, views, boom, cache, sleep=None):
+        """The application objects are built once per run and interface and serve every request of the history."""
+        if iface not in cache:
+            cache[iface] = {"views": views, "app": None}
+            cache[iface]["app"] = self._interpret(plan["app"], iface, _Sink(cache[iface]), boom, sleep)
+        cache[iface]["views"] = views
+        return cache[iface]["app"]
+
+    def _asgi(self, plan, ctx, boom, rq, cache):
         views = []
         body = rq["body"]
         cuts = rq["cuts"]
@@ -319,7 +344,7 @@ class C04(Prop):
 
         async def scenario(loop):
             peer = AsgiHttpPeer(loop, ctx, ctx.sched, self._abstract(rq), msgs, send_lats=lats, recv_lat_extra=(0.0, 0.0, 0.05), surface="asgi")
-            app = self._interpret(plan["app"], "asgi", views, boom)
+            app = self._app(plan, "asgi", views, boom, cache)
             exc = None
             try:
                 await app(peer.scope, peer.receive, peer.send)
@@ -350,13 +375,22 @@ class C04(Prop):
         if plan["req"]["body_kind"] == "mp" and uses(app, "dump"):
             ctx.probe("form_multipart")
         ctx.actors = 2
-        w, wviews = self._wsgi(plan, ctx, boom)
-        a, aviews = self._asgi(plan, ctx, boom)
+        cache = {}
+        reqs = [plan["req"]] + ([plan["req2"]] if plan.get("req2") else [])
+        if len(reqs) > 1:
+            ctx.probe("two_request_history")
+        for n, rq in enumerate(reqs):
+            self._compare(plan, ctx, boom, rq, cache, "" if n == 0 else "2nd-request|")
+
+    def _compare(self, plan, ctx, boom, rq, cache, tag):
+        app = plan["app"]
+        w, wviews = self._wsgi(plan, ctx, boom, rq, cache)
+        a, aviews = self._asgi(plan, ctx, boom, rq, cache)
         ctx.sch("wsgi", w[:3], len(w[3]) if len(w) > 3 and isinstance(w[3], bytes) else None, wviews)
         ctx.sch("asgi", a[:3], len(a[3]) if len(a) > 3 and isinstance(a[3], bytes) else None, aviews)
         if w[0] == "hang" or a[0] == "hang":
             if w[0] != a[0]:
-                ctx.violate("C04|hang-on-one-interface|%s" % ("wsgi" if w[0] == "hang" else "asgi"), "wsgi %r asgi %r" % (w[:2], a[:2]))
+                ctx.violate("C04|" + tag + "hang-on-one-interface|%s" % ("wsgi" if w[0] == "hang" else "asgi"), "wsgi %r asgi %r" % (w[:2], a[:2]))
             return
         where = "[app %s]" % summarise(app)
         if w[0] == "http-exception" or a[0] == "http-exception":
@@ -365,38 +399,38 @@ class C04(Prop):
             ctx.probe("status_304")
         # request views
         if len(wviews) != len(aviews):
-            ctx.violate("C04|view-reached-on-one-interface-only", "wsgi reached the dump view %d times, asgi %d times %s" % (len(wviews), len(aviews), where))
+            ctx.violate("C04|" + tag + "view-reached-on-one-interface-only", "wsgi reached the dump view %d times, asgi %d times %s" % (len(wviews), len(aviews), where))
         else:
             for vw, va in zip(wviews, aviews):
                 for key in vw:
                     if vw[key] != va.get(key):
-                        ctx.violate("C04|request-view-differs|%s" % key, "wsgi %r, asgi %r [request %r]" % (vw[key], va.get(key), jsonable({k: v for k, v in plan["req"].items() if k != "body"})))
+                        ctx.violate("C04|" + tag + "request-view-differs|%s" % key, "wsgi %r, asgi %r [request %r]" % (vw[key], va.get(key), jsonable({k: v for k, v in rq.items() if k != "body"})))
         # outcomes
         if w[0] != a[0]:
-            ctx.violate("C04|outcome-class-differs|wsgi-%s|asgi-%s" % (w[0], a[0]), "wsgi %r, asgi %r %s" % (short(w), short(a), where))
+            ctx.violate("C04|" + tag + "outcome-class-differs|wsgi-%s|asgi-%s" % (w[0], a[0]), "wsgi %r, asgi %r %s" % (short(w), short(a), where))
             return
         if w[0] == "exception":
             if w[1] != a[1]:
-                ctx.violate("C04|exception-type-differs|%s|%s" % (w[1], a[1]), where)
+                ctx.violate("C04|" + tag + "exception-type-differs|%s|%s" % (w[1], a[1]), where)
             return
         if w[0] == "http-exception":
             if w[1:] != a[1:]:
-                ctx.violate("C04|http-exception-differs", "wsgi %r, asgi %r %s" % (w[1:], a[1:], where))
+                ctx.violate("C04|" + tag + "http-exception-differs", "wsgi %r, asgi %r %s" % (w[1:], a[1:], where))
             return
         _, ws, wh, wb = w
         _, as_, ah, ab = a
         kind = leaf_kind(app)
         if ws != as_:
-            ctx.violate("C04|status-differs|%s" % kind, "wsgi %s, asgi %s %s" % (ws, as_, where))
+            ctx.violate("C04|" + tag + "status-differs|%s" % kind, "wsgi %s, asgi %s %s" % (ws, as_, where))
         if has_sse(app):
             ah = [h for h in ah if h[0] != "connection"]      # the sanctioned difference
         if wh != ah:
             only_w = [h for h in wh if h not in ah]
             only_a = [h for h in ah if h not in wh]
             names = sorted({h[0] for h in only_w + only_a})
-            ctx.violate("C04|headers-differ|%s|status-%s|%s" % (kind, ws, ",".join(names)[:60]), "only on wsgi %r, only on asgi %r %s" % (only_w, only_a, where))
+            ctx.violate("C04|" + tag + "headers-differ|%s|status-%s|%s" % (kind, ws, ",".join(names)[:60]), "only on wsgi %r, only on asgi %r %s" % (only_w, only_a, where))
         if wb != ab:
-            ctx.violate("C04|body-differs|%s|status-%s" % (kind, ws), "wsgi %d bytes %r, asgi %d bytes %r %s" % (len(wb), wb[:40], len(ab), ab[:40], where))
+            ctx.violate("C04|" + tag + "body-differs|%s|status-%s" % (kind, ws), "wsgi %d bytes %r, asgi %d bytes %r %s" % (len(wb), wb[:40], len(ab), ab[:40], where))
 
 
 def short(o):
